@@ -15,7 +15,7 @@ var verifC16Pos [2][]parser.Statement
 var verifC16PosPrior, verifC16PosNext []parser.Statement
 
 func VerifC16PosSetup() {
-	verifC16Pos[0] = verifParse("declare cur cursor for select id from t; open cur; var @i; fetch absolute @pos cur into @i;")
+	verifC16Pos[0] = verifParse("declare cur cursor for select id from t; open cur; var @i; fetch first cur into @i; fetch absolute @pos cur into @i;")
 	verifC16Pos[1] = verifParse("declare cur cursor for select id from t; open cur; var @i; fetch last cur into @i; fetch relative @pos cur into @i;")
 	verifC16PosPrior = verifParse("fetch prior cur into @i;")
 	verifC16PosNext = verifParse("fetch next cur into @i;")
@@ -53,6 +53,11 @@ func VerifC16PositionValues() {
 	if mi >= 7 {
 		ai, ok := after.(*value.Integer)
 		verifAssert("the offset variable is unchanged by the fetch", ok && ai.Raw() == []int64{9223372036854775807, 2}[mi-7])
+	}
+	if sign[mi] != 0 {
+		// the record does not exist: the manual says the variables are set to null
+		cur, _ := scope.GetVariable(parser.Variable{Name: "i"})
+		verifAssert("a fetch that finds no record sets its variable to NULL", value.IsNull(cur))
 	}
 	if sign[mi] > 0 {
 		_, err = proc.Execute(verifCtx(), verifC16PosPrior)
